@@ -197,6 +197,53 @@ fn triple_laws(a: &Value, b: &Value, cc: &Value, c: &Triple) -> Outcome {
     pass_n(chain && kinds > 0 || (eab && ebc), vec![if chain { "triple-ordered-chain" } else { "triple-unordered" }])
 }
 
+/// a value compared with an alias of itself (same Arc-shared storage): equality must still be decided by the
+/// contents — a list holding NaN is not equal to itself
+#[derive(Clone, Debug, Serialize, Deserialize)]
+pub struct Alias {
+    pub v: V,
+}
+
+pub fn check_alias(c: &Alias) -> Outcome {
+    let Some(a) = to_cel(&c.v) else { return Outcome::Skip("not-representable") };
+    let b = a.clone();
+    let want = model_eq(&c.v, &c.v);
+    let r = guard(|| (a == b, a != b, a.partial_cmp(&b)));
+    let (eq, ne, cmp) = match r {
+        Ok(x) => x,
+        Err(p) => return fail(format!("{:?} compared with its own clone: {}", c.v, p.short())),
+    };
+    if eq == ne {
+        return fail(format!("{:?} compared with its own clone: == is {eq} and != is {ne}", c.v));
+    }
+    if let Some(w) = want {
+        if w != eq {
+            return fail(format!("{:?} compared with a clone sharing its storage: == gives {eq}, element-wise equality gives {w} (NaN is unequal to itself)", c.v));
+        }
+    }
+    if let Some(o) = cmp {
+        if (o == Ordering::Equal) != eq {
+            return fail(format!("{:?} compared with its own clone: ordered as {o:?} while == is {eq}", c.v));
+        }
+    }
+    // the same through programs: one variable on both sides, and an element of a collection against itself
+    let vars = vec![("x".to_string(), c.v.clone()), ("l".to_string(), V::List(vec![c.v.clone()]))];
+    for (src, expect) in [("x == x", want), ("x != x", want.map(|w| !w)), ("l == l", want), ("l[0] == l[0]", want), ("x in [x]", want), ("x in l", want), ("[x].all(y, y == y)", want), ("{'k': x} == {'k': x}", want)] {
+        match sut::run_src(src, &vars) {
+            Ran::Done(R::Val(V::Bool(g))) => {
+                if let Some(w) = expect {
+                    if g != w {
+                        return fail(format!("`{src}` with x = {:?}: expected {w} (equality is decided by the contents; NaN is unequal to itself), observed {g}", c.v));
+                    }
+                }
+            }
+            o => return fail(format!("`{src}` with x = {:?}: {}", c.v, o.show())),
+        }
+    }
+    let has_nan = c.v.any(&|x| matches!(x, V::Float(f) if f.0.is_nan()));
+    pass_n(has_nan || matches!(c.v, V::List(_) | V::Map(_)), vec![if has_nan { "aliased-value-containing-nan" } else { "aliased-value" }])
+}
+
 #[derive(Clone, Debug, Serialize, Deserialize)]
 pub struct ProgPair {
     pub a: V,
@@ -402,6 +449,22 @@ pub fn run(r: &mut Runner) {
         }
         r.sweep("min-max-comparable-collections", cases, check_minmax);
     }
+    {
+        let mut cases: Vec<Alias> = bs.iter().map(|v| Alias { v: v.clone() }).collect();
+        let nan = V::f(f64::NAN);
+        for v in [
+            V::List(vec![nan.clone()]),
+            V::List(vec![V::Int(1), nan.clone()]),
+            V::List(vec![V::List(vec![nan.clone()])]),
+            V::Map(vec![(V::s("a"), nan.clone())]),
+            V::Map(vec![(V::Int(1), V::List(vec![nan.clone()]))]),
+            V::List(vec![V::Map(vec![(V::s("a"), nan.clone())])]),
+            V::List(vec![V::f(0.0), V::f(-0.0)]),
+        ] {
+            cases.push(Alias { v });
+        }
+        r.sweep("values-against-their-own-alias", cases, check_alias);
+    }
     let k = r.tier.n(20_000, 1_000_000);
     let o = ValOpts { funcs: false, time: true, nonfinite: true, invalid_utf8_bytes: true };
     r.random("random-direct-pairs", 120, k, |u: &mut Chooser| gen_related_pair(u, o), check_direct_pair);
@@ -426,6 +489,7 @@ pub fn run(r: &mut Runner) {
         },
         check_program_pair,
     );
+    r.random("random-aliased-values", 60, k / 4, |u: &mut Chooser| Alias { v: gen_value(u, 3, o) }, check_alias);
     r.random(
         "random-min-max",
         60,
